@@ -473,8 +473,8 @@ def run(ctx):
     for key, reason in sorted(set(stats["exceptions"])):
         ctx.notes.append("exception %s: %s" % (key, reason))
     ctx.notes.append("fallible call sites per file: %s" % stats["by_file"])
-    ctx.floor("fallible-call-sites", stats["sites"], 120)
-    ctx.floor("functions-with-fallible-calls", stats["fns"], 50)
+    ctx.floor("fallible-call-sites", stats["sites"], 100)
+    ctx.floor("functions-with-fallible-calls", stats["fns"], 40)
     check_flush(ctx, fb)
     check_config(ctx, fb)
     check_open(ctx, fb)
